@@ -1013,6 +1013,17 @@ nlopt_result NLOPT_STDCALL nlopt_optimize(nlopt_opt opt, double *x, double *opt_
     nlopt_set_force_stop(opt, 0);
     opt->force_stop_child = NULL;
 
+    /* the coordinates eliminated below (lb == ub) never reach the bound
+       check of nlopt_optimize_, so check the starting point here */
+    if (x && elimdim_wrapcheck(opt)) {
+        unsigned i;
+        for (i = 0; i < opt->n; ++i)
+            if (opt->lb[i] == opt->ub[i] && (x[i] < opt->lb[i] || x[i] > opt->ub[i])) {
+                nlopt_set_errmsg(opt, "bounds %d fail %g <= %g <= %g", i, opt->lb[i], x[i], opt->ub[i]);
+                return NLOPT_INVALID_ARGS;
+            }
+    }
+
     /* for maximizing, just minimize the f_max wrapper, which
        flips the sign of everything */
     if ((maximize = opt->maximize)) {
